@@ -20,9 +20,12 @@ CONSTANTS
   WithBuild = TRUE
   TrustSourceClass = FALSE
   ParseLeavesUnchecked = FALSE
+  WithFault = TRUE
+  DumpMemoPartial = FALSE
   EmitH = TRUE
 SPECIFICATION HSpec
 VIEW HView
 PROPERTY HistoryFree
 INVARIANT HistSound
+INVARIANT DumpWhole
 CHECK_DEADLOCK FALSE
